@@ -438,10 +438,12 @@ End Flat.
 (* ---------------------------------------------------------------- the two instances; every premise is a
    closed fact about the generated tables / operator strings / reserved words, checked by computation *)
 Ltac flat_facts :=
-  try (vm_compute; reflexivity);
-  try (intros la [->| ->]; vm_compute; reflexivity);
-  try (intros t H; unfold token_value; rewrite H; reflexivity);
-  try (intros x [[l v] m] y; reflexivity).
+  match goal with
+  | |- forall la, la_ok _ la -> _ => intros la [->| ->]; vm_compute; reflexivity
+  | |- forall t, tk_type t = _ -> _ => intros t H; unfold token_value; rewrite H; reflexivity
+  | |- forall (x : item) (o : _) (y : item), _ => intros x [[lx vx] mx] y; reflexivity
+  | |- _ = _ => vm_compute; reflexivity
+  end.
 
 Theorem and_roundtrip w1 w2 l :
   forallb plain_word (w1 :: w2 :: l) = true ->
